@@ -349,8 +349,13 @@ ALT_ARGS = {
 MENU_SIZE = {"flip": 2, "categorical": 3, "normal": 3, "exponential": 2, "mvn": 2, "mynormal": 3, "uniform": 2}
 
 
+GENERATED_LEAVES = {}
+
+
 def tree_size(name):
     """Number of leaves of the full simulate choice tree (product of menu sizes over element sites)."""
+    if name in GENERATED_LEAVES:
+        return GENERATED_LEAVES[name]
     from mc import ref as R
     from checks.c01 import _all_sites
 
@@ -396,3 +401,18 @@ def programs(tier, max_tree=None):
                 continue
             out.append(name)
     return out
+
+
+def _add_generated():
+    """Systematically generated depth-1/2 compositions (thorough tiers only); see mc/generated.py."""
+    from mc import generated as G
+
+    for name, (prog, argsl, nl) in G.generated(3000, 2).items():
+        if name in FAMILY:
+            continue
+        FAMILY[name] = (prog, [argsl[0]], "thorough")
+        ALT_ARGS[name] = [argsl[1]]
+        GENERATED_LEAVES[name] = nl
+
+
+_add_generated()
